@@ -23,9 +23,11 @@ CFG = {
                   "forms, plain/single/double scalars and keys, every null/bool/int spelling, flow collections as leaves; "
                   "render_load_block) for a bare single document; layer 3 below the root: literal `|` and folded `>` block scalars "
                   "(all chomping indicators, content indentation 1-9 with or without indentation indicator, any admissible "
-                  "text, folds at any set of admissible spaces) as values anywhere inside the layer-2 structures (same theorem "
-                  "render_load_block); line-break layer 5 for every stream (render_load_breaks) and combined with layers 1-3. "
-                  "Root-level block scalars (rest of layer 3), layers 4 (comments/blank lines), 6 (anchors/aliases), "
+                  "text, folds at any set of admissible spaces) as values anywhere inside the layer-2 structures; layer 4 inside "
+                  "the document: comment and blank lines before any entry and trailing comments after any entry's value, key or "
+                  "block scalar header (same theorem render_load_block); line-break layer 5 for every stream "
+                  "(render_load_breaks) and combined with layers 1-4. Root-level block scalars (rest of layer 3), filler lines "
+                  "before the first line and a comment on the root node (rest of layer 4), layers 6 (anchors/aliases), "
                   "7 (markers/multi-document) are `render_load_partial_<layer>`: kernel-evaluated on explicit finite families "
                   "only; their quantifier is carried by the correspondence (the driver re-evaluates loadRef(render s) = trees on "
                   "every generated stream). The 7 000-line Rust oracle parser is NOT modelled, only its observable result "
